@@ -44,6 +44,11 @@ def base_outcome(case, res, extra_key=''):
     fired['stop_' + stop.get('kind', 'exhaust')] = 1
     pol = case['sched'].get('policy')
     fired['policy_' + str(pol)] = 1
+    pst = par_stage(case['desc'])
+    if pst.get('num'):
+        fired['buffer_size_spelling_' + pst['num']] = 1
+    if pst.get('alias'):
+        fired['backend_alias_thread'] = 1
     return {
         'violations': [],
         'nontrivial': nontrivial,
